@@ -27,19 +27,22 @@ def mproj(m, order=None):
 def observe(case):
     from chython import smiles
     rnd = random.Random(case['rs'])
+    a0 = {'atoms': [], 'bonds': [], 'rings': []}
     try:
         k0 = smiles(case['smi'])
         k0.clean_stereo()
+        if case.get('restore'):    # an aromatic spelling of the library's own model (which bonds the text calls aromatic)
+            a0 = mproj(k0)
         k0.kekule()
     except Exception as e:
         if case.get('must'):     # an input that is known to be a valid aromatic or Kekule spelling: failing to convert it is a violation
             empty = {'atoms': [], 'bonds': [], 'rings': []}
-            return {'exc': 'kekule:' + type(e).__name__, 'smi': case['smi'], 'th': -1, 'rdh': -1, 'k0': empty, 'a': empty, 'k1': empty, 'a2': empty, 'k2': empty, 'ar': empty, 'forms': [], 'back': []}
+            return {'exc': 'kekule:' + type(e).__name__, 'smi': case['smi'], 'th': -1, 'rdh': -1, 'a0': empty, 'k0': empty, 'a': empty, 'k1': empty, 'a2': empty, 'k2': empty, 'ar': empty, 'forms': [], 'back': []}
         return {'skip': type(e).__name__}
     if not any(b._order == 2 for *_, b in k0.bonds()):
         return {'skip': 'no-double-bond'}
     order = list(k0._atoms)
-    rec = {'exc': '', 'smi': case['smi'], 'th': -1, 'rdh': -1}
+    rec = {'exc': '', 'smi': case['smi'], 'th': -1, 'rdh': -1, 'a0': a0}
     # the number of hydrogens an aromatic spelling denotes, by an independent reader of the text (a bare aromatic n carries none)
     if any(ch in case['smi'] for ch in 'cnosp') and all(a._implicit_hydrogens is not None for a in k0._atoms.values()):
         try:
@@ -142,8 +145,12 @@ def run(ck):
     # five-membered rings with a bridgehead nitrogen, fused through their C=C bond to a ring that is aromatised first
     special += ['c1ccc2c(c1)sc1nccn12', 'c1ccc2c(c1)sc1cccn12', 'c1ccc2c(c1)oc1nccn12', 'c1cnc2sc3ncccc3n12'.replace('c1cnc2sc3ncccc3n12', 'c1cn2c(n1)sc1ncccc12'), 'c1csc2nccn12', 'c1cc2sccn2c1', 'Cc1cn2c(n1)sc1ccccc12',
                 'c1ccc2c(c1)n1cccc1n2C'.replace('c1ccc2c(c1)n1cccc1n2C', 'Cn1c2ccccc2n2cccc12')]
+    # spellings whose aromatic bonds the library's own model must give back (its documented ring types, no other toolkit's extras)
+    restore = {'c1ccc2c(c1)sc1nccn12', 'c1ccc2c(c1)sc1cccn12', 'c1ccc2c(c1)oc1nccn12', 'c1cn2c(n1)sc1ncccc12', 'c1csc2nccn12', 'c1cc2sccn2c1', 'Cc1cn2c(n1)sc1ccccc12', 'Cn1c2ccccc2n2cccc12',
+               'c1ccccc1', 'c1ccc2ccccc2c1', 'c1cc[nH]c1', 'c1ccoc1', 'c1ccsc1', 'c1cnc[nH]1', 'c1ccncc1', 'c1ccc2[nH]ccc2c1', 'c1ccc2occc2c1', 'c1ccc2sccc2c1', 'c1ccn2cccc2c1', 'c1ccn2ccnc2c1',
+               'c1cn2ccccc2n1', 'c1ccc2c(c1)[nH]c1ccccc12', 'c1ccc2nc3ccccc3cc2c1', 'C[n+]1ccccc1', 'c1csc2nccn12', 'c1cnc2cccnn12', 'n12cccc1cccc2'}
     must = set(special)
-    cases = [{'key': s, 'smi': s, 'rs': rnd.randrange(1 << 30), 'must': s in must} for s in sel + special + doc_pairs() + ring_zoo(rnd, 150 if ck.quick else 4000)]
+    cases = [{'key': s, 'smi': s, 'rs': rnd.randrange(1 << 30), 'must': s in must, 'restore': s in restore} for s in sel + special + doc_pairs() + ring_zoo(rnd, 150 if ck.quick else 4000)]
     seen, uc = set(), []
     for c in cases:
         if c['key'] not in seen:
